@@ -9,6 +9,18 @@ HOOK_COMMITS = subprocess.run(
 
 # id -> (technique, level text, level note, design ref)
 CHECKS = {
+    "C01": ("property-based round-trip testing (proptest: structured payload + feeding/draining plans, shrinking) + small-scope exhaustive enumeration through a limits hook",
+            "Thousands (hundreds of thousands in thorough) of generated (payload, encoder plan, decoder plan) cases with boundary-biased lengths, FE/FD-dense bytes, all four input methods per side, scripted short-read/EINTR readers and consumer drains in flight; plus every string over {FE,FD,00} up to length 7 (9) x 4 tiny limit pairs x every 2-way cut x copy/borrow on both sides. Sampled, not exhaustive, at production limits.",
+            "Round-trip oracle only (an encoder and decoder wrong in the same way pass; C07 covers that). Hook: hcobs/verif-hooks.", "DESIGN.md §5 C01"),
+    "C02": ("property-based metamorphic testing (segmentation / method / drain schedule must not change the output) + validity predicates (stuff-free, length bound) + exhaustive length sweep and small-scope enumeration",
+            "Generated feeding plans are compared with a one-call encoding of the same input on a fresh Encoder; FE FD is searched in the full early-drained ++ finish() byte string; the length bound is checked on every case and on a complete sweep of lengths 0..600 and 252+k*64008+{-2..2}; a dedicated generator places FE FD across the last byte of the 252- and 64008-byte chunks.",
+            "The one-call reference is the same Encoder; agreement with an independent codec is C07's subject.", "DESIGN.md §5 C02"),
+    "C07": ("differential property-based testing against an independently written reference codec (encoder: byte equality; decoder: accept/reject verdict and bytes) with a mutation-based generator of malformed streams + small-scope exhaustive enumeration + every-position truncation",
+            "Encoder output equals the reference encoding byte for byte on generated payloads/feeding plans; the decoder's verdict and output equal the reference decoder's on valid encodings, header mutations (253..255, near-limit sizes), set/insert/delete/truncate/append mutations and short arbitrary strings, under generated call segmentations; all strings over a header alphabet up to length 6 (7) with limits 3/5 and 2/3, and every truncation of boundary-length encodings, are enumerated.",
+            "Trusts refimpl/hcobs_ref.rs (validated against the expected pairs of the crate's own unit tests).", "DESIGN.md §5 C07"),
+    "C09": ("property-based testing with an online invariant over the call history (observed bytes never change, drained = observable prefix, observable prefix of final output, lag bound) on generated drain schedules and on multi-MiB generated streams",
+            "After every encoder/decoder call the consumable bytes are compared with everything seen before and with the final output; lag is checked against the constant bound after every call, on short messages with dense drain schedules and on streams of 2..24 MiB (16..320 MiB thorough) through Encoder, Decoder and Encoder->Decoder pipelines.",
+            "Arena requests <= 512 KiB; the bound is checked as a constant.", "DESIGN.md §5 C09"),
     "C15": ("model-based property testing: exhaustive DFS over operation sequences + proptest random sequences, VecDeque as reference model",
             "Every operation sequence over a 10-symbol alphabet up to depth 8 (9 in thorough) on three backings is enumerated and compared step by step with VecDeque, then tens of thousands (millions in thorough) of random sequences of up to 200 operations; the space bound is read through a hook, the crate's debug assertions are on. Exhaustive within the bound, sampled beyond it.",
             "VecDeque is the reference; bounded sequence length; hooks: sliding_deque/verif-hooks (verif_rep).", "DESIGN.md §5 C15"),
